@@ -39,9 +39,13 @@ def cases(tier):
     q = tier == 'quick'
     fams = ('gauss', 'repeat', 'int')
     for d in (1, 2, 3):
-        for m in (1, 2, 3, 5):
+        for m in ((1, 2, 3, 5) if q else (1, 2, 3, 5, 7)):
             for fam in fams:
-                for p in (1, 2, 3):
+                for p in ((1, 2, 3) if q else (1, 2, 3, 4)):
+                    if p == 4:
+                        for ws in itertools.product(*([windows((1, 2), (0, 3))] * 4)):
+                            yield {'k': 'bd', 'd': d, 'm': m, 'fam': fam, 'ws': [list(w) for w in ws]}
+                        continue
                     if p < 3:
                         wl = [windows()] * p
                     else:
